@@ -10,7 +10,6 @@ package main
 import (
 	"flag"
 	"fmt"
-	"math/big"
 	"strings"
 	"time"
 
@@ -26,8 +25,16 @@ import (
 // ------------------------------------------------------------------ printing
 
 func hopTerm(h seg.HopField) string {
-	return vgen.App("mkHop", vgen.N(uint64(h.ConsIngress)), vgen.N(uint64(h.ConsEgress)),
-		vgen.N(uint64(h.ExpTime)), vgen.Bytes(h.MAC[:]))
+	return vgen.App("hopN", vgen.N(uint64(h.ConsIngress)), vgen.N(uint64(h.ConsEgress)),
+		vgen.N(uint64(h.ExpTime)), vgen.N(mac48(h.MAC[:])))
+}
+
+func mac48(m []byte) uint64 {
+	var v uint64
+	for _, b := range m {
+		v = v<<8 | uint64(b)
+	}
+	return v
 }
 
 func segTerm(s *seg.PathSegment) string {
@@ -39,8 +46,7 @@ func segTerm(s *seg.PathSegment) string {
 		return vgen.App("mkAS", vgen.N(uint64(a.Local)), hopTerm(a.HopEntry.HopField),
 			vgen.N(uint64(a.HopEntry.IngressMTU)), vgen.N(uint64(a.MTU)), peers)
 	})
-	id := new(big.Int).SetBytes(s.ID())
-	return vgen.Pair(id.String(), vgen.App("mkSeg", vgen.N(uint64(s.Info.Timestamp.Unix())),
+	return vgen.Pair(fmt.Sprintf("0x%x", s.ID()), vgen.App("mkSeg", vgen.N(uint64(s.Info.Timestamp.Unix())),
 		vgen.N(uint64(s.Info.SegmentID)), entries))
 }
 
@@ -77,8 +83,8 @@ func observe(p combinator.Path) (obs, error) {
 	}
 	hops := make([]string, len(dec.HopFields))
 	for i, h := range dec.HopFields {
-		hops[i] = vgen.App("mkHop", vgen.N(uint64(h.ConsIngress)), vgen.N(uint64(h.ConsEgress)),
-			vgen.N(uint64(h.ExpTime)), vgen.Bytes(h.Mac[:]))
+		hops[i] = vgen.App("hopN", vgen.N(uint64(h.ConsIngress)), vgen.N(uint64(h.ConsEgress)),
+			vgen.N(uint64(h.ExpTime)), vgen.N(mac48(h.Mac[:])))
 	}
 	// shortcut: a segment is left / entered at a hop that has a construction ingress
 	k := 0
@@ -321,7 +327,7 @@ func main() {
 		run.CheckFn = "check29"
 	}
 	run.DiagFn = "diag"
-	run.ShardSize = 25
+	run.ShardSize = 60
 	run.Rule = "segment sets from a mini beaconing (real DefaultExtender, real MACs) over random topologies " +
 		"(3-10 ASes, 1-3 ISDs, core/parent-child/peering/parallel links), random (src,dst) incl. src=dst and core ASes; " +
 		"streams: beaconed | perturbed (expiries, MTUs incl. uint16 wrap, re-originated duplicates, extra/matching peer entries) | " +
